@@ -23,7 +23,9 @@ var hostilePool = func() []hx.Val {
 		{K: "uint64", S: "18446744073709551615"}, {K: "uint64", S: "9223372036854775808"}, {K: "uint64", S: "4"},
 		hx.F64(0.5), hx.F64(3.9), hx.F64(-3.9), hx.F64(2147483647), hx.F64(2147483648), hx.F64(-2147483649), hx.F64(1e300), hx.F64(-1e300),
 		hx.F64(math.NaN()), hx.F64(math.Inf(1)), hx.F64(math.Inf(-1)), hx.F64(5e-324), hx.F64(3.5e38), hx.F64(3.4e38), hx.F64(4), hx.F64(1e19), hx.F64(1600000000.5),
-		hx.F32(1.5), hx.F32(math.MaxFloat32), hx.F32(3), nan32, inf32,
+		hx.F32(1.5), hx.F32(math.MaxFloat32), hx.F32(3), nan32, inf32, hx.F32(2147483648), hx.F32(-2147483648), hx.F32(2147483520), hx.F32(-2147483904), hx.F32(4294967296), hx.F32(16777216),
+		// time strings Go's parser takes but RFC 3339 does not write that way
+		hx.Str("2020-01-01T00:00:00,5Z"), hx.Str("2021-06-30T7:08:09Z"), hx.Str("2020-01-02T03:04:05.000000000Z"), hx.Str("2020-01-02T03:04:05+00:00"),
 		hx.Str("12"), hx.Str("-7"), hx.Str("abc"), hx.Str(""), hx.Str("1e3"), hx.Str("3.5"), hx.Str("99999999999"), hx.Str("true"), hx.Str("maybe"),
 		hx.Str("2020-01-02T03:04:05Z"), hx.Str("2020-01-02T03:04:05.5+02:00"), hx.Str("notatime"), hx.Str("RED"), hx.Str("BOGUS"), hx.Str("NaN"), hx.Str("Inf"), hx.Str("1e999"),
 		hx.Bool(true), hx.Bool(false),
